@@ -110,7 +110,11 @@ Step ==
          [] e.kind = "init" ->
               /\ conf' = [k \in {e.keys[i].k : i \in DOMAIN e.keys} |->
                             \* the seeding may write a key twice (the generator can draw the same key again): the last write counts
-                            LET x == e.keys[CHOOSE i \in DOMAIN e.keys : e.keys[i].k = k /\ \A j \in DOMAIN e.keys : j > i => e.keys[j].k # k] IN
+                            \* (an entry with present = FALSE is a key that was NOT written)
+                            LET mine == {i \in DOMAIN e.keys : e.keys[i].k = k}
+                                wr == {i \in mine : e.keys[i].present}
+                                pick == IF wr = {} THEN CHOOSE i \in mine : TRUE ELSE CHOOSE i \in wr : \A j \in wr : j <= i
+                                x == e.keys[pick] IN
                             {[st |-> [p |-> x.present, v |-> x.v, ttl |-> x.ttl], done |-> <<>>]}]
               /\ pend' = [k \in {e.keys[i].k : i \in DOMAIN e.keys} |-> <<>>]
               /\ UNCHANGED <<keyinfo, viol>>
